@@ -40,11 +40,20 @@ def run_reader_case(ctx, case, tmpdir):
         cands, probs = RC.expected_blocks(case, RC.effective_data(case, data), reader)
         for key, d in probs:
             ctx.violation(key, dict(d, case=cj))
+        if case["seed"] % 5 == 0 and case["kind"] != "buffer_obj_preconsumed":  # (that source is handed over already open)
+            # a read before open() fails (C11's clause); what matters here is that the reader is none the worse for it
+            try:
+                reader.read()
+            except Exception:
+                ctx.count("reads_before_open_attempted")
         reader.open()
         got = []
         longest = max(len(b) for _, b in cands)
         try:
-            for _ in range(longest + case["extra_reads"] + 1):
+            for i_ in range(longest + case["extra_reads"] + 1):
+                if i_ == 1 and case["seed"] % 3 == 0:
+                    reader.open()  # opening an open reader again changes nothing
+                    ctx.count("redundant_opens_mid_stream")
                 got.append(reader.read())
         except Exception as exc:
             ctx.case(repr(sorted(cj.items())), True)
@@ -123,16 +132,17 @@ def run_reader_case(ctx, case, tmpdir):
 def constructor_cases(ctx):
     data = bytes(40)
     for rate in (8, 10, 100, 16000, 48000, 44100):
-        for block_dur in (1 / rate, 2 / rate, 0.5 / rate, 0.99 / rate, 1.5 / rate, 0.1, 0.29, 0.57, 0.009, 0.35, 1001 / 16000, 0.9999999999 / rate):
+        for block_dur in (1 / rate, 2 / rate, 0.5 / rate, 0.99 / rate, 1.5 / rate, 0.1, 0.29, 0.57, 0.009, 0.35, 1001 / 16000, 0.9999999999 / rate,
+                          0, 0.0, -1 / rate, -2.5 / rate, -0.1, -0.5 / rate):
             for hop_dur in (None, block_dur, block_dur / 2, block_dur * 2, block_dur + 1 / rate, block_dur + 0.5 / rate, block_dur * 1.01):
                 ctx.evaluations += 1
                 ctx.count("constructor_cases")
                 exp_err = None
-                if F.W.block_size_ieee(block_dur, rate) == 0:
-                    exp_err = "sub-sample block_dur"
+                if block_dur <= 0 or F.W.block_size_ieee(block_dur, rate) == 0:
+                    exp_err = "sub-sample block_dur"  # zero and negative durations are shorter than one sample too
                 elif hop_dur is not None and hop_dur > block_dur:
                     exp_err = "hop_dur > block_dur"
-                if hop_dur is not None and hop_dur < block_dur and F.W.block_size_ieee(hop_dur, rate) == 0:
+                if block_dur > 0 and hop_dur is not None and hop_dur < block_dur and F.W.block_size_ieee(hop_dur, rate) == 0:
                     continue  # zero-sample hop: outside the statement
                 try:
                     AudioReader(data, block_dur=block_dur, hop_dur=hop_dur, sr=rate, sw=1, ch=1)
@@ -197,7 +207,7 @@ def replay(ctx, case):
 def inconclusive(merged, tier):
     c = merged["counters"]
     need = ["readers", "readers_with_overlap", "readers_with_max_read", "readers_on_empty_source", "nones_after_end_observed",
-            "constructor_errors_observed", "exhaustive_core_cases", "readers_hop_dur_below_block_dur_same_sample_count", "second_passes_checked"] + ["kind_" + k for k in RC.SOURCE_KINDS]
+            "constructor_errors_observed", "exhaustive_core_cases", "readers_hop_dur_below_block_dur_same_sample_count", "second_passes_checked", "reads_before_open_attempted", "redundant_opens_mid_stream"] + ["kind_" + k for k in RC.SOURCE_KINDS]
     return [f"monitor never observed {k}" for k in need if c.get(k, 0) == 0]
 
 
